@@ -3,6 +3,7 @@
 //!
 //!   skv-harness <prop> gen  --seed S --cases N --tier quick|thorough --out ops.txt --stats stats.json
 //!   skv-harness <prop> exec --ops ops.txt --out impl.txt
+mod arena;
 mod bgwork;
 mod c04;
 mod c05;
@@ -115,6 +116,8 @@ fn main() {
         ("c19", "gen") => c19::gen(&args),
         ("c19", "exec") => c19::exec(&args),
         ("c19", "child") => c19::child(&args),
+        ("arena", "gen") => arena::gen(&args),
+        ("arena", "exec") => arena::exec(&args),
         ("bgwork", "gen") => bgwork::gen(&args),
         ("bgwork", "exec") => bgwork::exec(&args),
         ("stall", "gen") => stall::gen(&args),
